@@ -238,7 +238,7 @@ class Check:
         _POOL_OBS = (self.obs, second)
         ctx = mp.get_context("fork")
         with ctx.Pool(min(jobs, len(todo))) as pool:
-            for i, res in pool.imap_unordered(_pool_job, todo, chunksize=4):
+            for i, res in pool.imap_unordered(_pool_job, todo, chunksize=1 if len(todo) < 400 else 4):
                 ob = self.obs[i]
                 ob.result, ob.backend, ob.ms, ob.reason, extra = res
                 ob.meta.update(extra)
@@ -346,6 +346,9 @@ class Check:
             payload["solver"].update({"result": ob.result, "backend": ob.backend, "reason": ob.reason,
                                       "model": _model_text(ob)})
             payload["failed_paths"] = [o.id for o in failed]
+            fc = sorted({c for o in failed for c in o.meta.get("failed_conjuncts", [])})
+            if fc:
+                payload["failed_conjuncts"] = fc
             self.violation(ob.id, payload, bool(payload.get("found")))
 
     # -------------------------------------------------------------- finishing
